@@ -211,7 +211,7 @@ func (pl *replayPlan) attachOut(n *rNode, tkey, ref, prefix string) {
 				}
 				h := r.st.heap[key]
 				if h == "" {
-					h = pl.ex.eng.smt.named("H"+r.st.epoch+"_"+key, srt)
+					h = pl.ex.eng.smt.named("H"+r.st.epochOf(key)+"_"+key, srt)
 				}
 				n.Out = append(n.Out, "(select "+h+" "+ref+")")
 			}
